@@ -157,10 +157,14 @@ _BYTES_SPEC = st.one_of(st.binary(max_size=8).map(lambda b: {'hex': b.hex()}),
                         st.sampled_from([65535, 65536, 65540]).map(lambda n: {'len': n}))
 
 
+_PATTERN = bytes((i * 13 + 5) & 0xFF for i in range(256))     # period 256
+
+
 def _bytes_of(spec):
     if 'hex' in spec:
         return bytes.fromhex(spec['hex'])
-    return bytes((i * 13 + 5) & 0xFF for i in range(spec['len']))
+    n = spec['len']
+    return (_PATTERN * (n // 256 + 1))[:n]
 
 
 def value_for(fd, allow_none=True):
@@ -188,7 +192,14 @@ def value_for(fd, allow_none=True):
     elif k == 'model':
         s = model_value(fd['m'])
     elif k == 'rep':
-        return st.lists(value_for(fd['e'], allow_none=False), max_size=4)
+        elem = value_for(fd['e'], allow_none=False)
+        short = st.lists(elem, max_size=4)
+        if fd['e']['k'] in ('uint', 'bytes', 'text', 'bool'):
+            # many small items rather than a few: a short list repeated up to 255 / 256 / 257 / 300 elements
+            long = st.tuples(st.lists(elem, min_size=1, max_size=3), st.sampled_from([255, 256, 257, 300])).map(
+                lambda t: (t[0] * (t[1] // len(t[0]) + 1))[:t[1]])
+            return st.one_of(*([short] * 19 + [long]))
+        return short
     elif k == 'map':
         keys = value_for(fd['key'], allow_none=False)
         return st.lists(st.tuples(keys, value_for(fd['val'], allow_none=False)).map(list), max_size=4,
@@ -592,6 +603,29 @@ def check_model(r, tag, desc, vals, cls, classes, salt=0, do_insert=True):
             if w2 != expected or n2 != len(expected):
                 r.bad(f'C08/{tag}/name-representation/wire-differs/rep{rep}', f'announced {n2}, {w2.hex()[:100]} vs {expected.hex()[:100]}')
                 return
+    # ---- the application edits a Name value IN PLACE (same list object) and encodes again ------------------------------------
+    for fd in desc['fields']:
+        v = vals.get(fd['n'])
+        if fd['k'] == 'name' and isinstance(v, list) and salt % 2 == 0:
+            try:
+                o3 = mk_instance(desc, vals, classes, cls)
+                first = bytes(o3.encode())
+                lst = getattr(o3, fd['n'])
+                if not isinstance(lst, list):
+                    break
+                extra = [8, '6c61746572']
+                lst.append(S.comp_bytes(extra))
+                vals3 = dict(vals, **{fd['n']: v + [extra]})
+                exp3 = enc_model(desc, vals3)
+                n3 = o3.encoded_length()
+                w3 = bytes(o3.encode())
+            except Exception as e:
+                r.bad(f'C08/{tag}/name-edited-in-place/raised/{type(e).__name__}', repr(e)[:200])
+                return
+            if first != expected or w3 != exp3 or n3 != len(exp3):
+                r.bad(f'C08/{tag}/name-edited-in-place/wire-differs', f'field {fd["n"]}: announced {n3}, {w3.hex()[:80]} expected {exp3.hex()[:80]}')
+                return
+            break
     want = {fd['n']: norm_json(fd, vals.get(fd['n'])) for fd in desc['fields']}
 
     def decode_equal(w, what):
@@ -623,6 +657,8 @@ def check_model(r, tag, desc, vals, cls, classes, salt=0, do_insert=True):
         return     # gap enumeration is quadratic in the wire size; large values are covered by the round trip above
     # ---- metamorphic: unknown elements at every gap --------------------------------------------------------------
     ann = annotate(desc, vals)
+    if sum(1 for _ in gaps(ann)) > 120:
+        return     # (hundreds of elements: the insertion sweep is quadratic; such values are covered by the round trip above)
     for path, idx in gaps(ann):
         a2 = _copy_ann(ann)
         tgt = _get_ann(a2, path)
